@@ -332,7 +332,7 @@ func TestC11(t *testing.T) {
 	cfg.Crashes = 1
 	cfg.Faults = 1
 	cfg.ReadFaults = 2
-	cfg.Cancels = 1
+	cfg.Cancels = 3 // callers that go away, e.g. while their log is being persisted, and retry
 	cfg.FailingPct = 15
 	cfg.IKPool = []string{"", "", "", "k1"}
 	runProp(t, c, func(rt *rapid.T) {
@@ -390,7 +390,7 @@ func TestC16(t *testing.T) {
 	cfg.IKPool = []string{"", "", "k1", "k1", "k2"}
 	cfg.SameIKIdentical = true
 	cfg.ReadFaults = 1
-	cfg.Cancels = 1
+	cfg.Cancels = 3
 	runProp(t, c, func(rt *rapid.T) {
 		plan := enginesim.GenPlan(rt, cfg)
 		// the property speaks about replays: the same request sent again with its key
